@@ -23,6 +23,13 @@ func c12Tree(r *rng, nClients int) *tree {
 	for i := 0; i < 3; i++ {
 		t.add(tnode{path: fmt.Sprintf("/shared/game/d%d.dat", i), kind: 'f', size: genSize(r), seed: int64(r.intn(250)), mtime: genMtime(r)})
 	}
+	// CD images large enough for the sector-size probe (2 MiB..848 MiB), one per sector size, plus one without signature
+	for _, S := range []int64{2048, 2336, 2352, 2448} {
+		n := tnode{path: fmt.Sprintf("/shared/cd%d.bin", S), kind: 'f', size: 0x200000 + 0x10000 + int64(r.intn(5000)), seed: 4294967295, mtime: genMtime(r)}
+		n.overlays = []overlay{{24 + 16*S, []byte("\x01CD001")}, {24 + 17*S, []byte{byte(S >> 8), byte(S), 0xAA, 0x55}}}
+		t.add(n)
+	}
+	t.add(tnode{path: "/shared/raw.bin", kind: 'f', size: 0x200000 + 0x10000, seed: 7, mtime: genMtime(r)})
 	t.add(tnode{path: "/PS3ISO", kind: 'd', mtime: genMtime(r)})
 	im := genEncImage(r, "/PS3ISO/enc.iso", 16, 0)
 	im.regs = []refRegion{{0, 2}, {6, 16}}
@@ -39,7 +46,8 @@ func c12Tree(r *rng, nClients int) *tree {
 
 func c12Session(r *rng, t *tree, me int, n int) []creq {
 	priv := fmt.Sprintf("/priv/c%d", me)
-	shared := []string{"/shared/f0.bin", "/shared/f1.bin", "/shared/f2.bin", "/shared/f3.bin", "/***DVD***/shared/game", "/PS3ISO/enc.iso", "/shared/missing"}
+	shared := []string{"/shared/f0.bin", "/shared/f1.bin", "/shared/f2.bin", "/shared/f3.bin", "/***DVD***/shared/game", "/PS3ISO/enc.iso", "/shared/missing",
+		"/shared/cd2048.bin", "/shared/cd2336.bin", "/shared/cd2352.bin", "/shared/cd2448.bin", "/shared/raw.bin"}
 	var reqs []creq
 	opened := false
 	created := false
@@ -59,6 +67,12 @@ func c12Session(r *rng, t *tree, me int, n int) []creq {
 				lim = uint64(r.pick(0, 1, 100))
 			}
 			reqs = append(reqs, creq{op: op, a: lim, b: uint64(r.pick(0, 1, 2047, 2048, 4096, 12288, 40000))})
+		case k < 49:
+			// what READ_CD returns depends on the sector size detected when THIS connection opened its file
+			if !opened {
+				continue
+			}
+			reqs = append(reqs, creq{op: opReadCD2048, a: uint64(r.pick(16, 17, 0)), b: uint64(r.pick(1, 2))})
 		case k < 52:
 			reqs = append(reqs, creq{op: opStatFile, path: shared[r.intn(len(shared))]})
 		case k < 58:
